@@ -34,7 +34,7 @@ m = {
     },
     "engines": [
         {"name": "input-enum", "path": "mc/core/runner.py", "serves_properties": [p for p in ids if CHECKS.get(p, {}).get("engine") == "input-enum"],
-         "kind_free_text": "bounded-exhaustive enumeration of an index-addressable input space on the real code, 16 forked workers, per-case watchdog"},
+         "kind_free_text": "bounded-exhaustive enumeration of an index-addressable input space on the real code, 16 forked workers, per-case CPU-time watchdog (wall-clock backstop)"},
         {"name": "chub-bfs", "path": "mc/core/chub.py", "serves_properties": [p for p in ids if CHECKS.get(p, {}).get("engine") == "chub-bfs"],
          "kind_free_text": "explicit-state BFS over operation histories of the real job queue / fetcher under a driver-controlled gevent hub"},
         {"name": "fsfault", "path": "mc/core/fsfault", "serves_properties": [p for p in ids if CHECKS.get(p, {}).get("engine") == "fsfault"],
